@@ -53,7 +53,8 @@ class EventSnapshot:
 
     def complete(self):
         """Close and complete the snapshot."""
-        self._duration_nanos = time_ns() - self._ts_nanos
+        # the wall clock can step back between the hit and now, a duration is never negative
+        self._duration_nanos = max(0, time_ns() - self._ts_nanos)
 
     def add_watch_result(self, watch_result: 'WatchResult'):
         """
